@@ -144,9 +144,8 @@ def c12(run=None):
     an = fc.an
     for q, s in sorted(an.summaries.items()):
         if GLOBAL_PRMS in s.direct_reads:
-            ok = q in ALLOWED_GLOBAL_READERS and (q.startswith('ampycloud.plots.') or q in ALLOWED_GLOBAL_READERS)
-            if q.startswith('ampycloud.plots.') and q not in ALLOWED_GLOBAL_READERS:
-                ok = False
+            # documented: the plotting code looks the style (MPL_STYLE) up in the global set
+            ok = q in ALLOWED_GLOBAL_READERS or q.startswith('ampycloud.plots.')
             fc.ob(q, 'reads.global_prms_only_where_allowed', ok,
                   f'reads dynamic.AMPYCLOUD_PRMS directly at lines {[l for l, h in fc.sites(q, GLOBAL_PRMS)]} (allowed: _setup_prms, set_prms, reset_prms, plotting style)')
     # the processing steps do not reach the global at all (not even through callees)
